@@ -212,11 +212,6 @@ def firstTie : List Slot → Option Nat
   | Slot.tie _ :: _ => some 0
   | Slot.cand _ :: rest => (firstTie rest).map (· + 1)
 
-def slotCands : List Slot → List Cand
-  | [] => []
-  | Slot.cand c :: rest => c :: slotCands rest
-  | Slot.tie _ :: rest => slotCands rest
-
 /-- `_tiebreak_default` (cardinal.py L164-197).  `fuel` bounds the number of loop iterations plus recursive calls; each
     iteration removes at least one grade from every candidate and each recursive call drops a candidate, so
     `Σ counts + #candidates + 1` suffices (the driver passes that). -/
@@ -235,7 +230,7 @@ def tiebreakDefault : Nat → ScoreTable → Nat → Except Err (List Slot)
         | none => pure best
         | some (i + 1) =>
           let winners := best.take (i + 1)
-          let wc := slotCands winners
+          let wc := Appr.slotCands winners
           let rest ← tiebreakDefault fuel (scores.filter (fun p => !(wc.contains p.1))) (n - (i + 1))
           pure (winners ++ rest)
         | some 0 =>
@@ -355,7 +350,7 @@ def schulze (counts : PairCounts) (n : Nat) : List Slot := getNBest (schulzeScor
 def starRunoff (addedCount : Nat) (addedFraction : Rat) (cfg : Cfg) (votes : SProfile) (n : Nat) : Except Err PairCounts := do
   let agg ← convert { cfg with fn := .sum } votes
   let size : Int := (n : Int) + addedCount + Py.pyCeil (addedFraction * ((n : Nat) : Rat))
-  let members := slotCands (getNBest agg size.toNat)      -- tie objects never equal a candidate (L368)
+  let members := Appr.slotCands (getNBest agg size.toNat)      -- tie objects never equal a candidate (L368)
   let unscored : Option Rat := match cfg.unscored with
     | .value u => some u
     | _ => none
